@@ -14,15 +14,15 @@ theorem C03_translated_calculate_session_key (C : Crypto) (be : Backend) (A B v 
   simp only [calculateSessionKey]
   cases hS : calculateS be A v (calculateU C A B) b with
   | panic m =>
-    simp [Gen.CodeApi.calculateSessionKey, ApiFn.run, runBody, Rhs.eval, Ret.eval, atomsVal, Atom.val, lookup, bindVar, srpPrims, outBytes, hS,
+    simp [Gen.CodeApi.calculateSessionKey, ApiFn.run, runBody, Rhs.eval, drawKinds, Ret.eval, atomsVal, Atom.val, lookup, bindVar, srpPrims, outBytes, hS,
       Out.bind, bind]
   | ok S =>
     cases hK : calculateInterleaved C S with
     | panic m =>
-      simp [Gen.CodeApi.calculateSessionKey, ApiFn.run, runBody, Rhs.eval, Ret.eval, atomsVal, Atom.val, lookup, bindVar, srpPrims, outBytes, hS, hK,
+      simp [Gen.CodeApi.calculateSessionKey, ApiFn.run, runBody, Rhs.eval, drawKinds, Ret.eval, atomsVal, Atom.val, lookup, bindVar, srpPrims, outBytes, hS, hK,
         Out.bind, bind]
     | ok K =>
-      simp [Gen.CodeApi.calculateSessionKey, ApiFn.run, runBody, Rhs.eval, Ret.eval, atomsVal, Atom.val, lookup, bindVar, srpPrims, outBytes, hS, hK,
+      simp [Gen.CodeApi.calculateSessionKey, ApiFn.run, runBody, Rhs.eval, drawKinds, Ret.eval, atomsVal, Atom.val, lookup, bindVar, srpPrims, outBytes, hS, hK,
         Out.bind, bind]
 
 /-- `SrpVerifier::with_specific_private_key(self, server_private_key)` -/
@@ -34,15 +34,15 @@ theorem C03_translated_with_specific_private_key (C : Crypto) (be : Backend) (s 
   simp only [SrpVerifier.withSpecificPrivateKey]
   cases hB : calculateServerPublicKey be s.passwordVerifier b with
   | panic m =>
-    simp [Gen.CodeApi.withSpecificPrivateKey, ApiFn.run, runBody, Rhs.eval, Ret.eval, atomsVal, fieldsVal, Atom.val, lookup, bindVar, srpPrims, outKey,
+    simp [Gen.CodeApi.withSpecificPrivateKey, ApiFn.run, runBody, Rhs.eval, drawKinds, Ret.eval, atomsVal, fieldsVal, Atom.val, lookup, bindVar, srpPrims, outKey,
       selfVerifier, hB, Out.bind, bind]
   | ok r =>
     cases r with
     | error e =>
-      simp [Gen.CodeApi.withSpecificPrivateKey, ApiFn.run, runBody, Rhs.eval, Ret.eval, atomsVal, fieldsVal, Atom.val, lookup, bindVar, srpPrims, outKey,
+      simp [Gen.CodeApi.withSpecificPrivateKey, ApiFn.run, runBody, Rhs.eval, drawKinds, Ret.eval, atomsVal, fieldsVal, Atom.val, lookup, bindVar, srpPrims, outKey,
         selfVerifier, hB, Out.bind, bind]
     | ok B =>
-      simp [Gen.CodeApi.withSpecificPrivateKey, ApiFn.run, runBody, Rhs.eval, Ret.eval, atomsVal, fieldsVal, Atom.val, lookup, bindVar, srpPrims, outKey,
+      simp [Gen.CodeApi.withSpecificPrivateKey, ApiFn.run, runBody, Rhs.eval, drawKinds, Ret.eval, atomsVal, fieldsVal, Atom.val, lookup, bindVar, srpPrims, outKey,
         selfVerifier, valProof, hB, Out.bind, bind]
 
 
@@ -50,7 +50,7 @@ theorem C03_translated_with_specific_private_key (C : Crypto) (be : Backend) (s 
 theorem C01_translated_from_database_values (C : Crypto) (be : Backend) (u : NStr) (v salt : Bytes) :
     Gen.CodeApi.fromDatabaseValues.run (srvPrims C be) [] [.nstr u, .bytes v, .bytes salt] []
       = some (.ok (valVerifier (SrpVerifier.fromDatabaseValues u v salt), [], [])) := by
-  simp [Gen.CodeApi.fromDatabaseValues, ApiFn.run, runBody, Rhs.eval, Ret.eval, fieldsVal, Atom.val, lookup, valVerifier,
+  simp [Gen.CodeApi.fromDatabaseValues, ApiFn.run, runBody, Rhs.eval, drawKinds, Ret.eval, fieldsVal, Atom.val, lookup, valVerifier,
     SrpVerifier.fromDatabaseValues, Out.bind, bind]
 
 
@@ -61,13 +61,22 @@ theorem C03_translated_with_specific_salt (C : Crypto) (be : Backend) (u p : NSt
   simp only [SrpVerifier.fromUsernameAndPassword]
   cases hv : calculatePasswordVerifier C be u.asRef p.asRef salt with
   | panic m =>
-    simp [Gen.CodeApi.withSpecificSalt, ApiFn.run, runBody, Rhs.eval, atomsVal, Atom.val, lookup, srvPrims, srpPrims, outBytes, hv, Out.bind, bind]
+    simp [Gen.CodeApi.withSpecificSalt, ApiFn.run, runBody, Rhs.eval, drawKinds, atomsVal, Atom.val, lookup, srvPrims, srpPrims, outBytes, hv, Out.bind, bind]
   | ok v =>
-    simp [Gen.CodeApi.withSpecificSalt, ApiFn.run, runBody, Rhs.eval, Ret.eval, atomsVal, Atom.val, lookup, bindVar, srvPrims, srpPrims, outBytes, hv,
+    simp [Gen.CodeApi.withSpecificSalt, ApiFn.run, runBody, Rhs.eval, drawKinds, Ret.eval, atomsVal, Atom.val, lookup, bindVar, srvPrims, srpPrims, outBytes, hv,
       Out.bind, bind]
+
+/-- the parameter lists and return types the terms above were read under (the terms carry parameter NAMES; the types decide what a
+    conversion such as `Generator::from(generator)`, `.into()` or `?` means) -/
+theorem C03_translated_setup_signatures :
+    Gen.CodeApi.calculateSessionKeySig = "client_public_key:&PublicKey,server_public_key:&PublicKey,password_verifier:&Verifier,server_private_key:&PrivateKey,->SessionKey" ∧
+    Gen.CodeApi.withSpecificPrivateKeySig = "self,server_private_key:PrivateKey,->Result<SrpProof,InvalidPublicKeyError>" ∧
+    Gen.CodeApi.fromDatabaseValuesSig = "username:NormalizedString,password_verifier:[u8;PASSWORD_VERIFIER_LENGTH as usize],salt:[u8;SALT_LENGTH as usize],->Self" ∧
+    Gen.CodeApi.withSpecificSaltSig = "username:NormalizedString,password:NormalizedString,salt:&Salt,->Self" := by decide +kernel
 
 #print axioms C03_translated_calculate_session_key
 #print axioms C03_translated_with_specific_private_key
 #print axioms C01_translated_from_database_values
 #print axioms C03_translated_with_specific_salt
+#print axioms C03_translated_setup_signatures
 end WowSrp
